@@ -236,8 +236,10 @@ def _merge(run, step, files, src, add, tag, sig):
         # a bucket holds one object per key: listing a file twice means nothing there
         seen = set()
         files = [f for f in files if not (f['key'] in seen or seen.add(f['key']))]
-        # ... and hands its objects over in listing order, which decides the order of messages with equal ids
-        files.sort(key=lambda f: f['key'].encode('utf-8'))
+        # ... and the order in which a listing hands over messages with EQUAL ids is the library's own business:
+        # only one message per id goes into the bucket
+        seen_mid = set()
+        files = [f for f in files if f['bad'] or not (f['ent']['mid'] in seen_mid or seen_mid.add(f['ent']['mid']))]
     good = [f for f in files if not f['bad']]
     bad = [f for f in files if f['bad']]
     if src == 'files':
